@@ -119,6 +119,9 @@ def cases(group):
                     for tolerance in ((1e-12,) if lite else (1e-12, 1e-6)):
                         for n in ns:
                             yield dict(kind=kind, dir=d, X=X, y=y, k=k, mixing=mixing, re=re, tolerance=tolerance, n=n)
+                            if kind == "PCovCUR" and tolerance == 1e-12 and n == ns[-1] and not lite and all(float(v).is_integer() for v in y):
+                                # the same targets passed as an integer-typed array (labels / counts)
+                                yield dict(kind=kind, dir=d, X=X, y=y, k=k, mixing=mixing, re=re, tolerance=tolerance, n=n, y_int=True)
                             if group["label"].startswith("G") and tolerance == 1e-12 and n == ns[-1]:
                                 # the same fit on a USED selector (fitted before, with another count, on other data of the same shape)
                                 yield dict(kind=kind, dir=d, X=X, y=y, k=k, mixing=mixing, re=re, tolerance=tolerance, n=n, prefit=True)
@@ -163,12 +166,24 @@ def check(case):
     y = None if case["y"] is None else np.array(case["y"], float)
     k, mixing, re, tolerance, n = case["k"], case["mixing"], case["re"], case["tolerance"], case["n"]
     N = sel.n_items(X, d)
-    s, rec, exc = _fit(kind, d, X, y, k, mixing, re, tolerance, n, prefit=bool(case.get("prefit")))
+    y_fit = y.astype(np.int64) if case.get("y_int") else y
+    s, rec, exc = _fit(kind, d, X, y_fit, k, mixing, re, tolerance, n, prefit=bool(case.get("prefit")))
     if exc is not None:
         return r.fail("crash:%s" % type(exc).__name__, repr(exc))
     idx = [int(i) for i in s.selected_idx_]
-    if len(idx) != n or len(set(idx)) != n:
-        return r.skip("selection shorter than requested or with repeats (C01's domain)")
+    if len(idx) != n:
+        return r.skip("selection shorter than requested (C01's domain)")
+    if len(set(idx)) != n:
+        # an already selected item was picked again: a violation here iff, as of the most recent refresh, an
+        # unselected item has a positive (well-defined) score; otherwise it is C01's exhausted-candidates finding
+        t = next(i for i in range(n) if idx[i] in idx[:i])
+        last_refresh = 0 if re == 0 else (t // re) * re
+        ref0 = sel.cur_reference(kind, d, X, y, idx[:last_refresh], k, mixing, gap=GAPC)
+        if ref0["gap_ok"]:
+            uns = [i for i in range(N) if i not in idx[:t]]
+            if uns and max(ref0["pi"][i] for i in uns) > 1e-6:
+                return r.fail("picked-an-already-selected-item", "step %d re-selected item %d although unselected items still score up to %.6g (selection %s)" % (t, idx[t], max(ref0["pi"][i] for i in uns), idx))
+        return r.skip("selection with repeats once no unselected item scores (C01's domain)")
     if not rec.ok:
         DEGRADED.add("score() not wrappable: only picks are judged")
     scores = rec.scores if rec.ok else [None] * n
